@@ -130,6 +130,12 @@ impl Error {
                     }
                 }
             }
+            Error::InfiniteType { ty } => {
+                diagnostic = diagnostic.with_message(format!(
+                    "Infinite type: a part of `{ty}` would have to be that same type"
+                ));
+                handle_reason(ty, ty.reasons().first(), &mut labels, &mut notes);
+            }
             Error::TypeConflict {
                 ty1,
                 ty2,
